@@ -9,7 +9,8 @@ namespace Girc.Proofs.Trans
 open Girc Girc.Model Girc.Go Girc.Gen
 
 /-- Mode names are ASCII (every mode letter a server can put into CHANMODES / PREFIX is): then Go's `string(name)`
-    is the one-byte string the hand-written models compare with. -/
+    is the one-byte string `[name]` (the `_ascii` corollaries below; the equivalences themselves need no such hypothesis,
+    the models spell a letter with `Go.strOfByte` as the code does). -/
 def asciiModes (ms : List CMode) : Prop := ∀ m ∈ ms, m.name < 0x80
 
 theorem strOfByte_ascii (b : Byte) (h : b < 0x80) : strOfByte b = [b] := by
@@ -39,10 +40,11 @@ theorem CModes_HasMode_loop1_eq (c : CModes) (mode : Bytes) : ∀ (fuel n : Nat)
       have : c.modes.drop n = [] := by simp; omega
       simp [deref_some, bind, Except.bind, hc, this, pure, Except.pure]
 
-/-- What the Go code computes: `string(name)` is the UTF-8 encoding of the code point `name`. -/
-theorem CModes_HasMode_go (c : CModes) (mode : Bytes) :
-    Fn.CModes_HasMode (some c) mode = .ok (c.modes.any (fun m => strOfByte m.name == mode)) := by
-  unfold Fn.CModes_HasMode
+/-- `HasMode`, for ALL mode bytes: `string(name)` is the UTF-8 encoding of the code point `name`, in the code and in the
+    model. -/
+theorem CModes_HasMode_eq (c : CModes) (mode : Bytes) :
+    Fn.CModes_HasMode (some c) mode = .ok (c.hasMode mode) := by
+  unfold Fn.CModes_HasMode CModes.hasMode
   have hl := CModes_HasMode_loop1_eq c mode (fuelTo 0 (len c.modes)) 0 (by omega) (by fuel_tac)
   simp only [Int.natCast_zero, List.drop_zero] at hl
   simp only [deref_some, hl, bind, Except.bind, pure, Except.pure]
@@ -59,19 +61,13 @@ theorem any_strOfByte (ms : List CMode) (mode : Bytes) (h : asciiModes ms) :
     congr 1
     by_cases e : [m.name] = mode <;> simp [e]
 
-theorem CModes_HasMode_eq (c : CModes) (mode : Bytes) (h : asciiModes c.modes) :
-    Fn.CModes_HasMode (some c) mode = .ok (c.hasMode mode) := by
-  rw [CModes_HasMode_go, any_strOfByte c.modes mode h]; rfl
+/-- On ASCII letters `HasMode` is the comparison with the one-byte string. -/
+theorem hasMode_ascii (c : CModes) (mode : Bytes) (h : asciiModes c.modes) :
+    c.hasMode mode = c.modes.any (fun m => [m.name] = mode) := any_strOfByte c.modes mode h
 
 theorem CModes_HasMode_nil (mode : Bytes) : Fn.CModes_HasMode none mode = .error .nilDeref := rfl
 
 /-! ### (*CModes).Get -/
-
-/-- `Get` as the Go code computes it. -/
-def getGo (ms : List CMode) (mode : Bytes) : Bytes × Bool :=
-  match ms.find? (fun m => strOfByte m.name == mode) with
-  | some m => if m.args == [] then ([], false) else (m.args, true)
-  | none => ([], false)
 
 theorem CModes_Get_loop1_eq (c : CModes) (mode : Bytes) : ∀ (fuel n : Nat),
     n ≤ c.modes.length → c.modes.length - n < fuel →
@@ -99,13 +95,19 @@ theorem CModes_Get_loop1_eq (c : CModes) (mode : Bytes) : ∀ (fuel n : Nat),
       have : c.modes.drop n = [] := by simp; omega
       simp [deref_some, bind, Except.bind, hc, this, pure, Except.pure]
 
-theorem CModes_Get_go (c : CModes) (mode : Bytes) :
-    Fn.CModes_Get (some c) mode = .ok (getGo c.modes mode) := by
-  unfold Fn.CModes_Get getGo
+/-- `Get`, for ALL mode bytes (the pair `(args, ok)` of the code is the model's option). -/
+theorem CModes_Get_eq (c : CModes) (mode : Bytes) :
+    Fn.CModes_Get (some c) mode = .ok (match c.get mode with | some a => (a, true) | none => ([], false)) := by
+  unfold Fn.CModes_Get CModes.get
   have hl := CModes_Get_loop1_eq c mode (fuelTo 0 (len c.modes)) 0 (by omega) (by fuel_tac)
   simp only [Int.natCast_zero, List.drop_zero] at hl
   simp only [deref_some, hl, bind, Except.bind, pure, Except.pure]
-  cases (c.modes.find? (fun m => strOfByte m.name == mode)) <;> rfl
+  cases (c.modes.find? (fun m => strOfByte m.name == mode)) with
+  | none => rfl
+  | some m =>
+    cases ha : m.args with
+    | nil => simp [ha]
+    | cons a as => simp [ha]
 
 theorem find_strOfByte (ms : List CMode) (mode : Bytes) (h : asciiModes ms) :
     ms.find? (fun m => strOfByte m.name == mode) = ms.find? (fun m => [m.name] = mode) := by
@@ -121,17 +123,14 @@ theorem find_strOfByte (ms : List CMode) (mode : Bytes) (h : asciiModes ms) :
     | false => have e : ¬ [m.name] = mode := by simpa using hb
                simp [e]
 
-theorem CModes_Get_eq (c : CModes) (mode : Bytes) (h : asciiModes c.modes) :
-    Fn.CModes_Get (some c) mode = .ok (match c.get mode with | some a => (a, true) | none => ([], false)) := by
-  rw [CModes_Get_go]
-  unfold getGo CModes.get
+/-- On ASCII letters `Get` looks the one-byte string up. -/
+theorem get_ascii (c : CModes) (mode : Bytes) (h : asciiModes c.modes) :
+    c.get mode = (match c.modes.find? (fun m => [m.name] = mode) with
+      | some m => if m.args.isEmpty then none else some m.args
+      | none => none) := by
+  unfold CModes.get
   rw [find_strOfByte c.modes mode h]
-  cases (c.modes.find? (fun m => [m.name] = mode)) with
-  | none => rfl
-  | some m =>
-    cases ha : m.args with
-    | nil => simp [ha]
-    | cons a as => simp [ha]
+  cases (c.modes.find? (fun m => [m.name] = mode)) <;> rfl
 
 theorem CModes_Get_nil (mode : Bytes) : Fn.CModes_Get none mode = .error .nilDeref := rfl
 
@@ -164,13 +163,9 @@ theorem CModes_String_loop1_eq (c : CModes) : ∀ (fuel n : Nat) (out args : Byt
       have : c.modes.drop n = [] := by simp; omega
       simp [deref_some, bind, Except.bind, hc, this, pure, Except.pure]
 
-/-- `String()` as the Go code computes it. -/
-def stringGo (ms : List CMode) : Bytes :=
-  (if ms.length > 0 then [0x2B] else []) ++ ms.flatMap (fun m => strOfByte m.name) ++
-    ms.flatMap (fun m => if m.args.length > 0 then SP :: m.args else [])
-
-theorem CModes_String_go (c : CModes) : Fn.CModes_String (some c) = .ok (stringGo c.modes) := by
-  unfold Fn.CModes_String stringGo
+/-- `String()`, for ALL mode bytes. -/
+theorem CModes_String_eq (c : CModes) : Fn.CModes_String (some c) = .ok c.toBytes := by
+  unfold Fn.CModes_String CModes.toBytes
   have hlen : decide (len c.modes > 0) = decide (c.modes.length > 0) := by decc_tac
   simp only [deref_some, bind, Except.bind, pure, Except.pure, hlen]
   by_cases h0 : c.modes.length > 0
@@ -190,8 +185,11 @@ theorem flatMap_strOfByte (ms : List CMode) (h : asciiModes ms) :
     have ih' := ih (fun x hx => h x (by simp [hx]))
     simp [List.flatMap_cons, strOfByte_ascii m.name hm, ih']
 
-theorem CModes_String_eq (c : CModes) (h : asciiModes c.modes) : Fn.CModes_String (some c) = .ok c.toBytes := by
-  rw [CModes_String_go]; unfold stringGo CModes.toBytes
+/-- On ASCII letters `String()` prints the letters themselves. -/
+theorem toBytes_ascii (c : CModes) (h : asciiModes c.modes) :
+    c.toBytes = (if c.modes.length > 0 then [0x2B] else []) ++ c.modes.map (·.name) ++
+      c.modes.flatMap (fun m => if m.args.length > 0 then SP :: m.args else []) := by
+  unfold CModes.toBytes
   rw [flatMap_strOfByte c.modes h]
 
 theorem CModes_String_nil : Fn.CModes_String none = .error .nilDeref := rfl
